@@ -42,7 +42,7 @@ def case_strategy(max_ops=25):
         "how": st.sampled_from(["copy", "copy", "deepcopy", "pickle"]),
         "edits": st.one_of(st.lists(st.tuples(st.sampled_from(["orig", "copy", "copy"]), ops.op_strategy(names, weights)), min_size=1, max_size=max_ops),
                            st.lists(st.tuples(st.sampled_from(["orig", "copy", "copy"]), ops.op_strategy(names, weights)), min_size=8, max_size=max_ops)),
-        "obj_ops": st.lists(st.tuples(st.sampled_from(["rcopy", "mcopy", "add", "sub", "mul", "radd", "sum1", "add0", "mul1"]), st.integers(0, 20), st.integers(0, 20),
+        "obj_ops": st.lists(st.tuples(st.sampled_from(["rcopy", "mcopy", "gcopy", "add", "sub", "mul", "radd", "sum1", "add0", "mul1"]), st.integers(0, 20), st.integers(0, 20),
                                       st.sampled_from([2, -1, 0.5])), max_size=3),
     })
 
@@ -61,6 +61,23 @@ def _cmp(a, b, what, bucket, rel=0.0, ignore=()):
         raise PropertyViolation(f"{bucket}:{area}", f"{what}: {d[:4]}")
 
 
+def _containers(obj, acc):
+    """ids of every dict/list/set reachable from a notes/annotation value"""
+    if isinstance(obj, (dict, list, set)):
+        acc[id(obj)] = obj
+        for v in (obj.values() if isinstance(obj, dict) else obj):
+            _containers(v, acc)
+    return acc
+
+
+def _model_containers(model):
+    acc = {}
+    for x in [*model.reactions, *model.metabolites, *model.genes]:
+        _containers(x.notes, acc)
+        _containers(x.annotation, acc)
+    return acc
+
+
 def check_object_ops(model, obj_ops):
     """Reaction.copy / Metabolite.copy / reaction arithmetic leave the model untouched and return detached objects."""
     if not len(model.reactions):
@@ -77,6 +94,10 @@ def check_object_ops(model, obj_ops):
                 if not len(model.metabolites):
                     continue
                 res = model.metabolites[i % len(model.metabolites)].copy()
+            elif kind == "gcopy":
+                if not len(model.genes):
+                    continue
+                res = model.genes[i % len(model.genes)].copy()
             elif kind == "add":
                 res = r1 + r2
             elif kind == "radd":
@@ -94,9 +115,24 @@ def check_object_ops(model, obj_ops):
         except Exception as e:  # noqa: BLE001
             raise PropertyViolation(f"object-{kind}:raised", f"{kind} raised {type(e).__name__}: {e}")
         _cmp(before, _snap(model), f"{kind} changed its operands' model", f"object-{kind}:operand-changed")
+        # the operands still belong to their model in every respect (back references, model pointers of their
+        # metabolites and genes)
+        try:
+            observe.audit_crossrefs(model, f"object-{kind}")
+        except PropertyViolation as v:
+            raise PropertyViolation(f"object-{kind}:operand-detached", f"after {kind} the model's cross-references are broken: {v.message}")
         if res.model is not None:
             raise PropertyViolation(f"object-{kind}:attached", f"result of {kind} reports model {res.model!r}")
-        if kind != "mcopy":
+        # "shares nothing": no notes/annotation container of the result (or of its metabolites and genes) is one of the model's
+        mine = _model_containers(model)
+        parts = [res] + ([] if kind in ("mcopy", "gcopy") else [*res.metabolites, *res.genes])
+        for x in parts:
+            for name in ("notes", "annotation"):
+                hit = [c for c in _containers(getattr(x, name), {}) if c in mine]
+                if hit:
+                    raise PropertyViolation(f"object-{kind}:shared-{name}", f"result of {kind}: {name} of {type(x).__name__} {x.id} is (or contains) the very "
+                                                                            f"object the model holds: {mine[hit[0]]!r}")
+        if kind not in ("mcopy", "gcopy"):
             for m in res.metabolites:
                 if m.id in model.metabolites and model.metabolites.get_by_id(m.id) is m:
                     raise PropertyViolation(f"object-{kind}:shared", f"result of {kind} shares metabolite {m.id} with the model")
